@@ -290,7 +290,10 @@ _EST = dict(name="estimate_wait_positive_when_full_small", crate="leaves", harne
             claim="BOUNDED: when no slot is free the sliding counter's wait estimate is >= 1 microsecond of a 1 s bucket, so Ok(ZERO) is only ever returned together with a counted admission "
                   "(the unbounded harness estimate_wait_positive_when_full does not close in 20 min and stays a named assumption)")
 _SAT = [h for h in PROPS["C14"]["kani"] if h["name"] in ("backoff_saturates_at_the_cap", "backoff_positive_stays_positive")]
-for _p, _h in (("C02", [_EST]), ("C15", [_EST]), ("C05", _SAT)):
+_EST_M = dict(_EST, name="estimate_wait_positive_when_full_medium", harness="estimate_wait_positive_when_full_medium", tier="thorough", timeout=1500,
+              bounded="previous_count in 0..=7 (enumerated), limit_for_period in 1..=8, current_count <= limit, bucket = 1 s, elapsed/bucket in [0, 0.999999] symbolic f64",
+              claim="BOUNDED (thorough tier, wider domain, ~4 min): " + _EST["claim"][len("BOUNDED: "):])
+for _p, _h in (("C02", [_EST, _EST_M]), ("C15", [_EST, _EST_M]), ("C05", _SAT)):
     PROPS[_p]["kani"] = PROPS[_p].get("kani", []) + _h
 
 PROPS["C20"] = dict(
